@@ -56,6 +56,7 @@ def run(repo: Repo, chk: Check) -> None:
     lccb(repo, chk)
     dense(repo, chk)
     overlap_enumerated(repo, chk)
+    offset_static(repo, chk)
     op_builders(repo, chk)
     subview_pointer(repo, chk)
 
@@ -513,6 +514,24 @@ def dense(repo: Repo, chk: Check) -> None:
                    "the address range is compared with the number of index tuples",
                    "is_dense compares the address range with the number of DISTINCT addresses and does not test self_overlaps(): a self-overlapping "
                    "layout without gaps ([4] -> (1), [4] -> (1)) is reported dense, and constants are re-laid-out at compile time through a map that is not one-to-one")
+
+
+def offset_static(repo: Repo, chk: Check) -> None:
+    """the address map starts at the layout's offset. A dynamic offset (`offset: ?`, None) is a run-time value the map cannot contain: the map is refused,
+    as it is for dynamic strides - not built as if the offset were 0"""
+    chk.rule("C10.offset-static", "get_affine_map takes its constant term from self.data.offset itself and only where that offset is known (not None): no default stands in "
+             "for a dynamic offset", floor=1)
+    f, fl = flow_of(repo, chk, DIALECT, "TiledStridedLayoutAttr.get_affine_map")
+    consts = [s for s in fl.calls("AffineConstantExpr") if s.reachable and s.node.args and norm.contains(fl.cone(s.node.args[0], s, inline=0), T("self.data.offset"))]
+    if not consts:
+        raise AnalysisError(f"{f.where}: the constant term built from self.data.offset was not found")
+    for n_, s in enumerate(consts, 1):
+        a = norm.primary(s.expand(s.node.args[0]))
+        plain = norm.match(T("self.data.offset"), a) is not None
+        known = bool(has_fact(s, ["self.data.offset is not None"]))
+        chk.result(plain and known, "C10.offset-static", f"{f.key}:constant-term#{n_}", s.where(), "the constant term is the (known) offset of the layout",
+                   f"the constant term is `{ast.unparse(a)[:60]}`" + ("" if known else " on a path where the offset may be None") +
+                   ": for a layout with a dynamic offset the map of the offset-0 layout is handed out, and stream addresses disagree with where the data is", s.fact_texts)
 
 
 def overlap_enumerated(repo: Repo, chk: Check) -> None:
